@@ -146,7 +146,9 @@ Proof.
 Qed.
 
 (* a unit that fits a packet together with its DONL: no fragmentation *)
-Definition unit_fits (mtu : Z) (n : list Z) : Prop := valid_nal5 n /\ zlen n + 4 <= mtu /\ zlen n < 65536.
+(* the fits test of the payloader asks for zlen n + 4 <= mtu; a unit one byte longer goes to the
+   fragmentation branch, where its payload fills exactly one fragment and it is sent whole (repair D12) *)
+Definition unit_fits (mtu : Z) (n : list Z) : Prop := valid_nal5 n /\ zlen n + 3 <= mtu /\ zlen n < 65536.
 
 Lemma nalu_reassembles_d mtu st b n : 4 <= mtu -> st_ok st -> buf_ok mtu true b -> buf_units_ok b ->
   unit_fits mtu n ->
@@ -159,7 +161,24 @@ Lemma nalu_reassembles_d mtu st b n : 4 <= mtu -> st_ok st -> buf_ok mtu true b 
 Proof.
   intros Hm Hst Hb Hu (Hv & Hfit & Hlen). pose proof (valid_nal5_len n Hv) as H3. pose proof Hst as [Hd Hdv].
   unfold h5_nalu. rewrite Hd. replace (zlen n <? 2) with false by lia.
-  replace (zlen n + 2 + 2 <=? mtu) with true by lia.
+  destruct (zlen n + 2 + 2 <=? mtu) eqn:Efit4.
+  2: { (* zlen n + 3 = mtu: the fragmentation branch sends the unit whole, DONL behind the payload header *)
+    destruct (flush_reassembles_d mtu st b Hst Hb Hu) as (st1 & fs1 & pk1 & Hfl & Hst1 & Hsk1 & Hp1 & Hq1 & Hr1).
+    destruct n as [|h0 [|h1 body]]; try contradiction.
+    rewrite !zlen_cons in *. pose proof (zlen_nonneg body) as Hb0.
+    replace ((mtu - (3 + 2) <=? 0) || (zlen body =? 0)) with false by lia.
+    rewrite Hfl. replace (zlen body <=? mtu - (3 + 2)) with true by lia.
+    unfold h5_flush at 1. cbn [hb_nalus]. destruct Hst1 as [Hd1 Hdv1]. rewrite Hd1.
+    eexists. exists (mkH5Buf [] 0), (fs1 ++ [Own (h0 :: h1 :: put16 (h5_donl st1) ++ body)]),
+      (pk1 ++ [PSingle (Z.lor (Z.shiftl h0 8) h1) (Some (h5_donl st1)) body]), (hb_nalus b ++ [h0 :: h1 :: body]).
+    split; [reflexivity|]. split; [split; [reflexivity|cbn [h5_donl]; unfold u16; lia]|].
+    split; [cbn [h5_skip_agg]; exact Hsk1|]. split; [apply buf_ok_empty; lia|]. split; [constructor|].
+    split; [apply Forall2_app; [exact Hp1|constructor; [apply single_donl_parses; assumption|constructor]]|].
+    split; [apply Forall_app; split; [exact Hq1|constructor; [exact I|constructor]]|].
+    split; [|cbn [hb_nalus]; rewrite app_nil_r; reflexivity].
+    intros rest. rewrite <- app_assoc, Hr1. cbn [app reassemble]. rewrite <- app_assoc. cbn [app]. f_equal. f_equal.
+    unfold nal_of_single. destruct body as [|x body']; [contradiction|]. destruct Hv as (H0 & H1 & _).
+    rewrite shiftl_8, (lor_add_small (h0 * 256) h1 8) by lia. rewrite shiftr_8, land_255. f_equal; [lia|f_equal; lia]. }
   assert (Hadd : forall st0 b0, st_ok st0 -> buf_ok mtu true b0 -> buf_units_ok b0 ->
             hb_size b0 + h5_marginal st0 b0 n <= mtu ->
             buf_ok mtu true (mkH5Buf (hb_nalus b0 ++ [n]) (hb_size b0 + h5_marginal st0 b0 n)) /\
